@@ -887,6 +887,92 @@ func (x *extractor) classifyMuxUse(pkg *packages.Package, id *ast.Ident, stack [
 	x.fail(id.Pos(), "unsupported use of the admin mux")
 }
 
+// gateRoots are the functions of internal/home that stand between the mux and a
+// registered handler: the wrappers and the registrar.
+var gateRoots = []string{
+	"optionalAuth", "optionalAuthHandler", "authHandler.ServeHTTP", "optionalAuthThird", "isPublicResource",
+	"postInstall", "postInstallHandler", "postInstallHandlerStruct.ServeHTTP",
+	"preInstall", "preInstallHandler", "preInstallHandlerStruct.ServeHTTP",
+	"ensure", "ensureHandler", "httpHandler.ServeHTTP", "ensureContentType", "modifiesData",
+	"httpRegister", "withMiddlewares", "limitRequestBody",
+}
+
+// gateCallees returns every function (of the module or not) that is named in
+// the body of a function on the gate path, transitively through module
+// functions: what the Lean model has to account for.  A new helper on that path
+// (or a new library call in one of its functions) shows up here.
+func (x *extractor) gateCallees() (names []string, sites map[string]string) {
+	home := x.pkgs[homePath]
+	seen := map[*types.Func]bool{}
+	sites = map[string]string{}
+	var work []*types.Func
+	byName := map[string]*types.Func{}
+	for fn := range x.decls {
+		if fn.Pkg() == home.Types {
+			n := fn.Name()
+			if sig, ok := fn.Type().(*types.Signature); ok && sig.Recv() != nil {
+				t := sig.Recv().Type()
+				if pt, isPtr := t.(*types.Pointer); isPtr {
+					t = pt.Elem()
+				}
+				if nt, isNamed := t.(*types.Named); isNamed {
+					n = nt.Obj().Name() + "." + n
+				}
+			}
+			byName[n] = fn
+		}
+	}
+	for _, r := range gateRoots {
+		fn := byName[r]
+		if fn == nil {
+			fmt.Fprintf(os.Stderr, "extract c11: gate function %s not found in internal/home (the gate moved: update the extractor)\n", r)
+			os.Exit(3)
+		}
+		work = append(work, fn)
+	}
+	set := map[string]bool{}
+	for len(work) > 0 {
+		fn := work[len(work)-1]
+		work = work[:len(work)-1]
+		if seen[fn] {
+			continue
+		}
+		seen[fn] = true
+		set[fn.FullName()] = true
+		fi := x.decls[fn]
+		if fi == nil || fi.decl.Body == nil {
+			continue
+		}
+		ast.Inspect(fi.decl.Body, func(n ast.Node) bool {
+			id, ok := n.(*ast.Ident)
+			if !ok {
+				return true
+			}
+			callee, isFn := fi.pkg.TypesInfo.Uses[id].(*types.Func)
+			if !isFn {
+				return true
+			}
+			full := callee.FullName()
+			if !set[full] {
+				f, l := x.pos(id.Pos())
+				sites[full] = fmt.Sprintf("%s:%d", f, l)
+			}
+			set[full] = true
+			if callee.Pkg() != nil && x.pkgs[callee.Pkg().Path()] != nil {
+				work = append(work, callee)
+			}
+
+			return true
+		})
+	}
+	for n := range set {
+		names = append(names, n)
+	}
+	sort.Strings(names)
+
+	return names, sites
+}
+
 func bytesLit(s string) string {
 	if s == "" {
 		return "[]"
@@ -1139,6 +1225,16 @@ func main() {
 		}
 		sb.WriteString("\n")
 	}
+	gateNames, gateSites := x.gateCallees()
+	sb.WriteString("]\n\n/-- every function named on the path from the mux to a registered handler -/\n")
+	sb.WriteString("def gateCallees : List Bytes := [\n")
+	for i, n := range gateNames {
+		fmt.Fprintf(&sb, "  -- %s  (%s)\n  %s", n, gateSites[n], bytesLit(n))
+		if i != len(gateNames)-1 {
+			sb.WriteString(",")
+		}
+		sb.WriteString("\n")
+	}
 	sb.WriteString("]\n\nend AGH.C11.Gen\n")
 	if err := os.WriteFile(leanOut, []byte(sb.String()), 0o644); err != nil {
 		panic(err)
@@ -1170,6 +1266,7 @@ func main() {
 	facts := map[string]any{
 		"summary": map[string]any{
 			"routes":                    len(routes),
+			"gate_path_callees":         len(gateNames),
 			"routes_direct_on_mux":      direct,
 			"routes_via_registrar":      viaReg,
 			"routes_by_package":         byPkg,
@@ -1180,6 +1277,7 @@ func main() {
 			"program_packages_scanned":  nProg,
 			"sites_outside_the_program": len(x.outside),
 		},
+		"gate_callees":        gateNames,
 		"routes":              routes,
 		"flows":               x.flows,
 		"mux_uses":            x.muxUses,
